@@ -5,7 +5,7 @@
 d="$(realpath "$1")"; pid="$2"; tier="${3:-quick}"
 wt=$(mktemp -d /tmp/seedtest-XXXXXX); rmdir "$wt"
 git -C /repo worktree add -q "$wt" HEAD || exit 2
-if ! git -C "$wt" apply "$d/patch.diff"; then echo "PATCH-DOES-NOT-APPLY $d"; git -C /repo worktree remove --force "$wt"; exit 2; fi
+if ! git -C "$wt" apply "$d/patch.diff" 2>/dev/null && ! git -C "$wt" apply --3way "$d/patch.diff" 2>/dev/null; then echo "PATCH-DOES-NOT-APPLY $d"; git -C /repo worktree remove --force "$wt"; exit 2; fi
 if [ -f "$d/demo.py" ]; then
   PB_PATH="$wt" /venv/bin/python -W ignore "$d/demo.py" >/dev/null 2>&1; echo "demo exit with change: $?"
 fi
